@@ -125,6 +125,12 @@ def gen(rng, tier):
         else:
             merged.insert(pos, ['pilot', rps.PMGR_ACTIVE, 'pilot'])
             kinds.add('pilot_entry')
+    # a *pilot's* entry whose uid equals the uid of one of the tasks (uids are
+    # only unique per kind) - with a state name both models share
+    if rng.random() < 0.25 and merged:
+        merged.insert(rng.randint(0, len(merged)),
+                      [rng.randrange(n), rng.choice(FINAL), 'pilot_same_uid'])
+        kinds.add('pilot_same_uid')
     # cut into batches
     batches = list()
     i = 0
@@ -160,7 +166,10 @@ def run(seed, scenario, trace=None, tier='quick'):
                     and ev.get('chan') == C.rpc.STATE_PUBSUB:
                 m = ev['m']
                 if m.get('cmd') == 'update':
-                    for uid, state in m.get('things', []):
+                    tt = m.get('ttypes')
+                    for k, (uid, state) in enumerate(m.get('things', [])):
+                        if tt and tt[k] != 'task':
+                            continue      # a pilot's entry: not for tasks
                         if isinstance(uid, str) and uid.startswith('task.'):
                             model.notify(uid, state)
         sim.listeners.append(on_event)
@@ -238,6 +247,10 @@ def run(seed, scenario, trace=None, tier='quick'):
                         if t >= n1 and not st['ready2']:
                             W.wait_until(sim, lambda: st['ready2'], 10.0)
                         if t >= len(st['tasks']):
+                            continue
+                        if kind == 'pilot_same_uid':
+                            arg.append({'uid': st['tasks'][t].uid,
+                                        'type': 'pilot', 'state': state})
                             continue
                         d = {'uid': st['tasks'][t].uid, 'type': 'task',
                              'state': state}
